@@ -3,6 +3,7 @@ package main
 // VC generation: SSA (NaiveForm) of one function -> ordered facts + obligations.
 
 import (
+	"os"
 	"fmt"
 	"go/constant"
 	"go/token"
@@ -51,6 +52,8 @@ func shortFile(f string) string {
 }
 
 type Gen struct {
+	applyLines map[int][]*AtCall // source line -> lemma applications (apply-at)
+	loopEntry map[*loopInfo]*State // state in which each loop was entered
 	sliceLos []string // lower bounds of slice expressions seen so far (instantiation candidates)
 	*Ctx
 	fn      *ssa.Function
@@ -137,6 +140,7 @@ func newGen(ctx *Ctx, fn *ssa.Function, con *Contract) *Gen {
 		backEdges: map[[2]int]bool{}, loopDec: map[*loopInfo]string{}, loopHeadState: map[*loopInfo]*State{}}
 	g.pa = con.Level == "PA"
 	ctx.etypeSorts = sharedElemSorts(ctx, fn)
+	ctx.rawFact = g.addFact
 	ctx.sideFact = func(term string, t types.Type, alloc string) {
 		g.addFact(g.rangeFact(term, t))
 		if alloc != "" {
@@ -412,6 +416,7 @@ func (g *Gen) run() {
 		g.fail(fn.Pos(), "function has no body")
 	}
 	g.findLoops()
+	g.bindApplyLines()
 	for _, b := range fn.Blocks {
 		for _, in := range b.Instrs {
 			if a, ok := in.(*ssa.Alloc); ok && a.Comment != "" {
@@ -728,8 +733,18 @@ func (g *Gen) block(b *ssa.BasicBlock, init *State) {
 		st = g.loopHead(li, st, reach)
 	}
 	g.reach[b] = reach
+	appliedHere := map[*AtCall]bool{}
 	for _, in := range b.Instrs {
 		g.nInstr++
+		if len(g.applyLines) > 0 && in.Pos().IsValid() {
+			ln := g.prog.Prog.Fset.Position(in.Pos()).Line
+			for _, ac := range g.applyLines[ln] {
+				if !appliedHere[ac] {
+					appliedHere[ac] = true
+					g.applyLemma(ac, g.envAtLocals(st), reach)
+				}
+			}
+		}
 		if !g.instr(in, st, reach) {
 			// path ends (return/panic)
 			return
@@ -777,6 +792,7 @@ func (g *Gen) loopHead(li *loopInfo, st *State, reach string) *State {
 	// inv-init
 	env := g.envAt(st, nil)
 	env.localsFirst = true
+	env.loopOld = st
 	for i, cl := range spec.Invariants {
 		if !clauseActive(cl, g.fmode) {
 			continue
@@ -830,8 +846,13 @@ func (g *Gen) loopHead(li *loopInfo, st *State, reach string) *State {
 			g.addFact(g.allocBound(v, a.Type().(*types.Pointer).Elem(), ns.alloc))
 		}
 	}
+	if g.loopEntry == nil {
+		g.loopEntry = map[*loopInfo]*State{}
+	}
+	g.loopEntry[li] = st.clone()
 	env2 := g.envAt(ns, nil)
 	env2.localsFirst = true
+	env2.loopOld = g.loopEntry[li]
 	for _, cl := range spec.Invariants {
 		if !clauseActive(cl, g.fmode) {
 			continue
@@ -857,6 +878,7 @@ func (g *Gen) backEdge(li *loopInfo, st *State, cond string, from *ssa.BasicBloc
 	}
 	env := g.envAt(st, nil)
 	env.localsFirst = true
+	env.loopOld = g.loopEntry[li]
 	pos := li.pos
 	for i, cl := range spec.Invariants {
 		if !clauseActive(cl, g.fmode) {
@@ -1401,4 +1423,46 @@ func sharedElemSorts(c *Ctx, fn *ssa.Function) map[string]bool {
 		}
 	}
 	return out
+}
+
+// envAtLocals: spec environment in which a name denotes the current value of a local or parameter.
+func (g *Gen) envAtLocals(st *State) *Env {
+	env := g.envAt(st, nil)
+	env.localsFirst = true
+	return env
+}
+
+// bindApplyLines resolves the source fragments of apply-at clauses to lines of this function.
+func (g *Gen) bindApplyLines() {
+	g.applyLines = map[int][]*AtCall{}
+	var frags []*AtCall
+	for _, ac := range g.con.AtCalls {
+		if ac.AtText != "" {
+			frags = append(frags, ac)
+		}
+	}
+	if len(frags) == 0 || g.fn.Syntax() == nil {
+		return
+	}
+	fset := g.prog.Prog.Fset
+	start, end := fset.Position(g.fn.Syntax().Pos()), fset.Position(g.fn.Syntax().End())
+	src, err := os.ReadFile(start.Filename)
+	if err != nil {
+		panic(bindError{"apply-at: cannot read " + start.Filename})
+	}
+	lines := strings.Split(string(src), "\n")
+	for _, ac := range frags {
+		found := 0
+		for ln := start.Line; ln <= end.Line && ln <= len(lines); ln++ {
+			if strings.Contains(lines[ln-1], ac.AtText) {
+				if found == 0 {
+					g.applyLines[ln] = append(g.applyLines[ln], ac)
+				}
+				found++
+			}
+		}
+		if found != 1 {
+			panic(bindError{fmt.Sprintf("apply-at %q: fragment occurs %d times in %s (need exactly one)", ac.AtText, found, g.key)})
+		}
+	}
 }
